@@ -46,7 +46,7 @@ ASSUMPTIONS = ['index= is explored for the arguments a Python sequence of k resu
                'reader showing what it showed',
                'non-termination = more than 20 x lines x (result sets + 2) readline calls in one library call, or '
                'more than 4 x lines + 1000 consecutive reads at end of file']
-BOUNDS = {'quick': {'files': 'shipped listings with >= 2 result times and size < 300 kB',
+BOUNDS = {'quick': {'files': 'shipped listings with >= 2 result times and size < 300 kB, plus those < 500 kB that mix short and full result sets',
                     'truncations': 'all k in 1..N for N <= 6, otherwise k in {1, 2, N}', 'depth': 'to closure'},
           'thorough': {'files': 'all shipped listings with >= 2 result times',
                        'truncations': 'all k in 1..N for N <= 6, otherwise k in {1, 2, N-1, N}', 'depth': 'to closure'}}
@@ -77,10 +77,14 @@ def truncations(n, tier):
 def units(tier):
     us = []
     for key, path, size in listkit.shipped():
-        if tier == 'quick' and size >= 300000:
-            continue
-        n = len(listkit.scan_of(path).full)
+        sc = listkit.scan_of(path)
+        n = len(sc.full)
         if n < 2:
+            continue
+        # quick: files < 300 kB, plus (< 500 kB) the listings that mix short and full result sets - the only
+        # ones where time= / step= can confuse the two kinds of result set (AUTOUGH2/3 is the only shipped one)
+        mixed = len(sc.sets) > n
+        if tier == 'quick' and not (size < 300000 or (mixed and size < 500000)):
             continue
         for k in truncations(n, tier):
             # a search has about 6k states x (10k + 7) actions; large ones are split into shards
@@ -117,8 +121,19 @@ class Ctx(object):
                 lst = listkit.open_listing(self.path)
                 self.sim = lst.simulator
                 lst._file.arm()
-                with listkit.quiet():
-                    lst.index = i
+                try:
+                    with listkit.quiet():
+                        lst.index = i
+                except listkit.BudgetExceeded as e:
+                    listkit.close_listing(lst)
+                    raise listkit.OpenFailed('index-nontermination', 'index = %d on a freshly opened %s does not '
+                                             'terminate: %s' % (i, self.seed_name, e))
+                except (core.CaseTimeout, core.HarnessError):
+                    raise
+                except Exception as e:
+                    listkit.close_listing(lst)
+                    raise listkit.OpenFailed('index-raises-%s' % type(e).__name__,
+                                             'index = %d on a freshly opened %s raised %r' % (i, self.seed_name, e))
                 lst._file.disarm()
                 refs.append(listkit.observe(lst, names=True))
                 listkit.close_listing(lst)
@@ -266,12 +281,13 @@ def apply_op(st, op, judge=True):
             clause = 'changes-the-index'
         else:
             clause = 'wrong-result-set'
-        out.append((base + clause + tail,
+        # the cursor arithmetic is the same code for every simulator: no simulator in these signatures
+        out.append((base + clause + (tail if name == 'history' else '|' + cls),
                     '%r from index %d lands on index %r, the model accepts %s (%s, %d result times, after %r)'
                     % (op, i0, idx, sorted(acc), ctx.key, m.n, st.hist)))
         return out
     if moved is not None and bool(ret) != moved:
-        out.append((base + 'return-value' + tail,
+        out.append((base + 'return-value|' + cls,
                     '%s() from index %d of %d returned %r, expected %r (%s)' % (name, i0, m.n, ret, moved, ctx.key)))
     # invariant: shows what a freshly opened listing positioned directly shows
     obs = listkit.observe(lst, names=True)
@@ -363,7 +379,7 @@ def search(rec, ctx, ops, shard, nshards, fresh):
     """Breadth-first search to closure, restoring a state by replaying its history on a fresh listing.
 
     Splitting one search over several workers (shards) without communication: a fixed *discovery relation*
-    D (from the seed: index = j and time = t_j; from every state: the history actions) is followed by every
+    D (from the seed: index = j, time = t_j and step = s_j; from every state: the history actions) is followed by every
     shard, so every shard finds by itself every state reachable through D ('public' states).  A public state
     is expanded with the full alphabet by exactly one shard, its owner (state hash mod number of shards).  A
     state a shard reaches only through a non-D action ('private' - none exist on the unchanged tree) is
@@ -379,7 +395,7 @@ def search(rec, ctx, ops, shard, nshards, fresh):
         if op[0] == 'history':
             return True
         if not hist:
-            return (op[0] == 'index' and op[1] >= 0) or (op[0] == 'time' and op[2] == 'exact')
+            return (op[0] == 'index' and op[1] >= 0) or (op[0] in ('time', 'step') and op[2] == 'exact')
         return False
 
     def restore(hist):
@@ -449,6 +465,27 @@ def search(rec, ctx, ops, shard, nshards, fresh):
 def run_unit(unit, tier, rec):
     key, k, shard, nshards = unit
     ctx = Ctx(key, k)
+    try:
+        _run_unit(ctx, unit, tier, rec)
+    except listkit.OpenFailed as e:
+        # no reader to explore: one violation per (kind, file family), and the search is not closed
+        rec.violation('C07|fresh-listing|%s|%s' % (e.kind, ctx.scan.family), str(e), {'seed': ctx.seed_name, 'ops': []})
+        rec.state(('no-reader', ctx.seed_name))
+        rec.distinct.add(core.h64(('no-reader', ctx.seed_name)))
+        rec.transition(validated=False)
+        rec.closed = False
+        rec.outcomes['no-reader'] += 1
+    finally:
+        _pristine.drop(ctx.path)
+        if os.path.dirname(ctx.path) != os.path.dirname(ctx.src):
+            try:
+                os.remove(ctx.path)
+            except OSError:
+                pass
+
+
+def _run_unit(ctx, unit, tier, rec):
+    key, k, shard, nshards = unit
     live = []
 
     def fresh():
@@ -484,12 +521,6 @@ def run_unit(unit, tier, rec):
     if not closed:
         rec.count('cap_hit')
         rec.notes.append('search %s shard %d/%d not closed at depth %d' % (ctx.seed_name, shard, nshards, MAX_DEPTH))
-    if os.path.dirname(ctx.path) != os.path.dirname(ctx.src):
-        _pristine.drop(ctx.path)
-        try:
-            os.remove(ctx.path)
-        except OSError:
-            pass
 
 
 def finalize(rec, tier):
@@ -504,6 +535,13 @@ def finalize(rec, tier):
 
 def _run_case(ctx, ops):
     """The ops on a genuinely fresh open; violations of any step (the last one is the recorded one)."""
+    try:
+        return _run_case_inner(ctx, ops)
+    except listkit.OpenFailed as e:
+        return [('C07|fresh-listing|%s|%s' % (e.kind, ctx.scan.family), str(e))]
+
+
+def _run_case_inner(ctx, ops):
     st = State(ctx, listkit.open_listing(ctx.path), genuine=True)
     out = []
     try:
